@@ -154,6 +154,27 @@ def gen_many(rng, min_stems=10, max_stems=16, max_len=3):
     return {"triples": layout(order, lengths, gaps, rng), "family": "many:%d" % base}
 
 
+def gen_broom(rng, min_leaves=9, max_leaves=13):
+    """One or two 'handle' stems each crossing many nested one- or two-pair stems: the maximum degree of the
+    conflict graph (and with it the level bound of the emitted model) reaches two digits although only two
+    or three levels are ever needed."""
+    handles = rng.choice([1, 2, 2])
+    m = rng.randint(min_leaves, max_leaves)
+    crossing_handles = handles == 2 and rng.random() < 0.7
+    # arm order: handles open, leaves open (nested), handles close, leaves close
+    hs = list(range(handles))
+    leaves = list(range(handles, handles + m))
+    close_h = hs if crossing_handles else list(reversed(hs))
+    order = hs + leaves + close_h + list(reversed(leaves))
+    lengths = [rng.randint(1, 4) for _ in hs] + [rng.choice([1, 1, 2]) for _ in leaves]
+    gaps = []
+    for k in range(len(order) + 1):
+        gaps.append(rng.choice([1, 1, 2]))
+    gaps[0] = rng.choice([0, 1])
+    gaps[-1] = rng.choice([0, 1])
+    return {"triples": layout(order, lengths, gaps, rng), "family": "broom:%d+%d" % (handles, m)}
+
+
 def all_matchings(n):
     """Every perfect-or-partial matching on positions 1..n as a sorted tuple of pairs."""
 
